@@ -50,7 +50,7 @@ PROPS['C18'] = dict(
 )
 PROPS['C04'] = dict(
   level='proof',
-  verus=[dict(unit='peephole', min_functions=2), dict(unit='bytecode', min_functions=1), dict(unit='ops', min_functions=6), dict(unit='unwind', min_functions=6), _findings_variant(['spec:handler_depth_is_live_depth'])],
+  verus=[dict(unit='peephole', min_functions=2), dict(unit='bytecode', min_functions=1), dict(unit='ops', min_functions=6), dict(unit='unwind', min_functions=6), dict(unit='hooks', min_functions=2), _findings_variant(['spec:handler_depth_is_live_depth'])],
   not_decided=['PopHandler emission on every exit path (compiler)', 'A-hist: the pointers already collected for an error do not reach below the frame now searched (pause_unwind precondition)',
                'the raw-pointer stores of stack_unwind (ip, stack top, current frame) are one stub (vx/units/unwind/prelude.rs); Vm::stack_unwind / execute loop around it'],
 )
@@ -79,7 +79,7 @@ PROPS['C13'] = dict(
 )
 PROPS['C16'] = dict(
   level='proof',
-  verus=[dict(unit='ops', min_functions=40), dict(unit='native', min_functions=4), dict(unit='calls', min_functions=6), dict(unit='ncall', min_functions=3), dict(unit='chanq', min_functions=10), dict(unit='unwind', min_functions=6)],
+  verus=[dict(unit='ops', min_functions=40), dict(unit='native', min_functions=4), dict(unit='calls', min_functions=6), dict(unit='ncall', min_functions=3), dict(unit='chanq', min_functions=10), dict(unit='unwind', min_functions=6), dict(unit='hooks', min_functions=3)],
   kani=[dict(crate='value', harnesses=['proofs::o16_f64_cast_positive'], kind='complete', extra=['-Z', 'unstable-options', '--no-overflow-checks'], timeout=600, jobs=1, assumption_ids=['A-kani'])],
   not_decided=['the ~150 native bodies themselves (the signature gate and the fact that call_native runs a body only behind it ARE proved; that each body assumes no more than its declared signature is not), errors during handling; the front end (C15); debug-only assert_roots accounting (R3d)',
                'A-float: axiom_integral_cast_positive used by op_buffered_channel is discharged by the complete Kani harness o16_f64_cast_positive'],
@@ -87,7 +87,7 @@ PROPS['C16'] = dict(
 _HEAP_COMPLETE = ['proofs::o20_2_next_aligned', 'proofs::o20_2_array_layout_str', 'proofs::o20_2_array_layout_tuple', 'proofs::o20_2_array_layout_instance',
                   'proofs::o20_2_vector_layout_list', 'proofs::o20_2_obj_layout_fixed']
 _HEAP_BOUNDED = ['proofs::o20_1_alloc_drop_string', 'proofs::o20_1_alloc_drop_tuple', 'proofs::o20_1_alloc_drop_box', 'proofs::o20_1_alloc_drop_method',
-                 'proofs::o20_1_alloc_drop_list', 'proofs::o20_3_unique_vector_handle', 'proofs::o20_3_shared_vector_handle', 'proofs::o20_3_array_handle']
+                 'proofs::o20_1_alloc_drop_list', 'proofs::o20_1_alloc_drop_instance_block', 'proofs::o20_3_unique_vector_handle', 'proofs::o20_3_shared_vector_handle', 'proofs::o20_3_array_handle']
 _GC_BOUNDED = ['proofs::o20_4_full_collection_exact', 'proofs::o20_4n_nursery_collection_exact', 'proofs::o20_4p_promoted_then_full_exact']
 _GC_C05 = ['proofs::o05_4_marks_cleared', 'proofs::o05_4_temp_root_survives', 'proofs::o20_4_full_collection_exact', 'proofs::o05_5_inflight_obj_survives', 'proofs::o05_5_inflight_alloc_survives']
 _GC_C09 = ['proofs::o09_intern_twice', 'proofs::o09_intern_across_collection']
@@ -115,8 +115,8 @@ PROPS['C05'] = dict(
 PROPS['C09'] = dict(
   level='proof',
   verus=[dict(unit='intern', min_functions=3)],
-  kani=[dict(crate='gc', harnesses=['proofs::o09_intern_evicts_unrooted', 'proofs::o09_intern_keeps_rooted'], kind='bounded', tier='thorough',
-             bound='one 2-byte string, one full collection, unwind 10 (12-15 min each in CBMC: hashbrown; o09_intern_twice did not finish in 40 min and is not registered)', timeout=3000, jobs=2, mem_gb=16,
+  kani=[dict(crate='gc', harnesses=['proofs::o09_intern_evicts_unrooted', 'proofs::o09_intern_keeps_rooted', 'proofs::o09_intern_promoted_survives_nursery'], kind='bounded', tier='thorough',
+             bound='one 2-byte string, one full collection, unwind 10 (12-15 min each in CBMC: hashbrown; o09_intern_twice did not finish in 40 min and is not registered)', timeout=3000, jobs=3, mem_gb=16,
              assumption_ids=['A-kani', 'A-stub', 'A-bound'])],
   not_decided=['that every string-producing native and op goes through manage_str', 'Value equality/hash of strings is identity (C14 covers Value): identity == content only for interned strings',
                'A-std: the hashbrown table behaves as a mathematical map keyed by string content (vx/units/intern/prelude.rs)'],
